@@ -24,9 +24,16 @@ def gen_scenarios(rng, n):
                     "delay_ms": rng.choice([0, 0, 5, 30, 90]), "exit_delay": rng.choice([0, 20, 60, 150, 250]),
                     "status": rng.choice([202, 202, 202, 503, 429, 410, 409, 401, 413]),
                     "txns": rng.randint(2, 7), "wait_ms": rng.choice([60, 150, 300])})
+    scs = scs[:n]
+    # the REAL collector client (TLS, its own time-out) against a local server that, once the exit has begun, answers,
+    # stays silent, stalls after the headers, drops the connection or reads the request a few bytes at a time
+    modes = ["stall_body", "silent", "close", "slow_read", "ok"]
+    for j, t in enumerate(modes if n <= 10 else modes * 3):
+        scs.append({"apps": 1 + (j % 2), "period_ms": 60000, "delay_ms": 0, "exit_delay": 0, "status": 202, "txns": 3, "wait_ms": 60,
+                    "transport": t, "timeout_ms": rng.choice([200, 300])})
     for i, s in enumerate(scs):
         s["seed"] = i + 1
-    return scs[:n]
+    return scs
 
 
 def run_stage(chk):
@@ -61,9 +68,12 @@ def run_stage(chk):
         n = sc["txns"] * sc["apps"]
         offered = [t for t in range(1, n + 1)] + [t + 100000 for t in range(1, n + 1)] + [t + 200000 for t in range(1, n + 1)]
         delivered = [t for q in (o.get("periodics") or []) + (o.get("finals") or []) for t in q["tags"]]
+        if sc.get("transport"):
+            offered, delivered = [], []        # the server does not decode payloads: only termination is judged
         items.append("{| eo_offered := %s; eo_delivered := %s; eo_accepting := %s; eo_exited := %s; eo_after := %d |}" % (
             vlib.clist([vlib.cZ(t) for t in offered]), vlib.clist([vlib.cZ(t) for t in delivered]),
-            vlib.cbool(sc["status"] in (200, 202)), vlib.cbool(bool(o.get("exited"))), o.get("requests_after_return", 0)))
+            vlib.cbool(sc["status"] in (200, 202) and not sc.get("transport")), vlib.cbool(bool(o.get("exited"))),
+            o.get("requests_after_return", 0)))
         usable.append(i)
     v = ("From Coq Require Import ZArith List Bool.\nFrom Verif Require Import ExitMonitor.\nImport ListNotations.\nOpen Scope Z_scope.\n"
          "Definition cases : list exit_obs := [\n " + ";\n ".join(items) + "].\n"
@@ -94,4 +104,5 @@ def run_stage(chk):
                                                   "exit_ms_max": max([o.get("exit_ms", 0) for o in obs] or [0]),
                                                   "requests_after_return": sum(o.get("requests_after_return", 0) for o in obs)}
     chk.sample("live-timer exit: %d scenarios (1-3 applications, report periods 15-80 ms, collector latency up to 250 ms, every status "
-               "class): %d violate the exit monitor" % (len(scs), nbad))
+               "class; %d of them through the real HTTP client against a server that stalls, stays silent, drops or reads slowly): "
+               "%d violate the exit monitor" % (len(scs), sum(1 for x in scs if x.get("transport")), nbad))
